@@ -19,6 +19,17 @@ root given:
   analyse_paths.root_given_is_honoured[returns]   basepath == '/'.join(components of join_path(root)), every path starts with them
   analyse_paths.root_given_is_honoured[raises]    AssertionError only if some path does not start with the root's components
 plus safety (index_in_range@L..: N >= 1 is the precondition of `path_parts_list[0]`).
+
+Further families of this module (each in its own try/except; `enumeration (executed)` = the expression / function of the CURRENT source run on a
+generated table, a bound):
+  analyse_paths.executed_table[<shape>]              the real function on file lists (deeper level common / higher differs, depths, single, identical)
+  ParquetFile.__init__.root_handed_to_metadata_from_many[list|glob|directory, root given|not given]     symbolic run: provenance of `root`
+  ParquetFile.basepath / row_group_filename.*[<fn shape>]                                              executed
+  hive_path.regex_and_split_agree[value: <shape> | key: <shape>]   util.ex_from_sep's pattern (api.filter_out_cats) == the split convention
+  paths_to_cats.executed[key: <shape>]               api.paths_to_cats on oracle-spelled hive paths (backs contracts/c08_paths.py's symbolic families)
+  _read_partitions.cats_are_exactly_paths_to_cats_of_current_row_groups (symbolic run, arbitrary prior cats) + _read_partitions.executed[...]
+  part_id.number_is_that_of_the_file_name[<shape>]   api.PART_ID (precondition of c07_parts' find_max_part.fresh)
+check() = analyse_paths + __init__ + basepath (props/_analyse.py: C08, C14); check_conventions(ctx, which) = the others (props/_pathconv.py).
 """
 import ast
 
@@ -946,10 +957,9 @@ def run_analyse_table(util_funcs):
 def run_read_partitions(api_funcs):
     """symbolic run of the real method: whatever the prior state of the handle, afterwards file_scheme / cats ARE the two results of ONE call
     paths_to_cats(<file_path of every current row group that has columns>, self.partition_meta) - nothing removed, added or reordered"""
-    from .c08_paths import Eng
+    from .c08_paths import Eng, effects
     from vc.symexec import AbstractComp
     res = Results()
-    log = []
 
     class CatsResult:
         tracked = False
@@ -958,7 +968,7 @@ def run_read_partitions(api_funcs):
             self.what = what
 
         def setitem(self, eng, p, i, v, node):
-            log.append(("mutated", self.what))
+            effects(p).append(("mutated", self.what))
 
         def getitem(self, eng, p, i, node):
             return Opaque((self.what, "[]"))
@@ -966,7 +976,7 @@ def run_read_partitions(api_funcs):
         def call_method(self, eng, p, name, args, kw, node):
             if name in ("items", "keys", "values", "get", "copy"):
                 return [(p, Custom(Items(self.what)))]
-            log.append(("mutated", self.what + "." + name))
+            effects(p).append(("mutated", self.what + "." + name))
             return [(p, NONE)]
 
         def iterate(self, eng, p):
@@ -1031,7 +1041,7 @@ def run_read_partitions(api_funcs):
 
         def attr(self, eng, p, name):
             if name in self.state:
-                return self.state[name]
+                return p.ghost.get("state:" + name, self.state[name])
             if name == "row_groups":
                 return Custom(RowGroups())
             if name == "partition_meta":
@@ -1039,11 +1049,11 @@ def run_read_partitions(api_funcs):
             return Opaque(("self", name))
 
         def setattr(self, eng, p, name, v):
-            self.state[name] = v
-            log.append(("set", name, v))
+            p.ghost["state:" + name] = v
+            effects(p).append(("set", name, v))
 
     def h_p2c(eng, p, args, kw, node):
-        log.append(("paths_to_cats", args[0] if args else None, args[1] if len(args) > 1 else kw.get("partition_meta")))
+        effects(p).append(("paths_to_cats", args[0] if args else None, args[1] if len(args) > 1 else kw.get("partition_meta")))
         return [(p, Tup([Opaque("RESULT scheme"), Custom(CatsResult("RESULT cats"))]))]
 
     def h_getattr(eng, p, args, kw, node):
@@ -1054,29 +1064,32 @@ def run_read_partitions(api_funcs):
     eng = Eng(funcs=api_funcs, handlers={"paths_to_cats": h_p2c, "getattr": h_getattr}, opaque_calls=True)
     outs = eng.run("ParquetFile._read_partitions", Path(), [Custom(me)])
     P = "_read_partitions."
-    calls = [e for e in log if e[0] == "paths_to_cats"]
-    ok = len(calls) == 1 and all(q.ctl[0] == "ret" for q in outs)
-    res.add(P + "calls_paths_to_cats_once", PROVED if ok else REFUTED, None if ok else {"calls": len(calls)}, 0.0, "symbolic run", "one call, no exception")
-    if calls:
-        _, paths, meta = calls[0]
-        h = paths.h if isinstance(paths, Custom) else None
-        ok = isinstance(h, AbstractComp) and isinstance(h.coll, Custom) and isinstance(h.coll.h, RowGroups)
-        res.add(P + "paths_are_those_of_the_current_row_groups", PROVED if ok else REFUTED, None, 0.0, "symbolic run",
-                "the paths handed over are one file_path per row group of self.row_groups AS IT IS NOW (filtered only by `the row group has columns`)")
-        ok = isinstance(meta, Opaque) and meta.tag == "self.partition_meta"
-        res.add(P + "partition_metadata_is_the_handles", PROVED if ok else REFUTED, None, 0.0, "symbolic run", "partition_meta == self.partition_meta")
-    sets = {}
-    for e in log:
-        if e[0] == "set":
-            sets[e[1]] = e[2]
-    muts = [e[1] for e in log if e[0] == "mutated" and e[1].startswith("RESULT")]
-    c_ok = isinstance(sets.get("cats"), Custom) and isinstance(sets["cats"].h, CatsResult) and sets["cats"].h.what == "RESULT cats" and not muts
-    s_ok = isinstance(sets.get("file_scheme"), Opaque) and sets["file_scheme"].tag == "RESULT scheme"
-    res.add(P + "cats_are_exactly_paths_to_cats_of_current_row_groups", PROVED if c_ok and s_ok else REFUTED,
-            None if c_ok and s_ok else {"self.cats is": str(getattr(getattr(sets.get("cats"), "h", None), "what", type(sets.get("cats")).__name__)),
-                                        "result changed afterwards by": muts, "self.file_scheme is the result": s_ok}, 0.0, "symbolic run",
-            "after the call self.file_scheme, self.cats ARE the pair paths_to_cats returned - the object itself, not filtered / merged with what the handle "
-            "held before (ARBITRARY prior self.cats): a partition value that appears with a new row group is a category of the handle")
+    for q in outs:
+        log = effects(q)
+        calls = [e for e in log if e[0] == "paths_to_cats"]
+        ok = len(calls) == 1 and q.ctl[0] == "ret"
+        res.add(P + "calls_paths_to_cats_once", PROVED if ok else REFUTED, None if ok else {"calls": len(calls), "ends with": str(q.ctl[0])}, 0.0, "symbolic run",
+                "one call, no exception")
+        if calls:
+            _, paths, meta = calls[0]
+            h = paths.h if isinstance(paths, Custom) else None
+            ok = isinstance(h, AbstractComp) and isinstance(h.coll, Custom) and isinstance(h.coll.h, RowGroups)
+            res.add(P + "paths_are_those_of_the_current_row_groups", PROVED if ok else REFUTED, None, 0.0, "symbolic run",
+                    "the paths handed over are one file_path per row group of self.row_groups AS IT IS NOW (filtered only by `the row group has columns`)")
+            ok = isinstance(meta, Opaque) and meta.tag == "self.partition_meta"
+            res.add(P + "partition_metadata_is_the_handles", PROVED if ok else REFUTED, None, 0.0, "symbolic run", "partition_meta == self.partition_meta")
+        sets = {}
+        for e in log:
+            if e[0] == "set":
+                sets[e[1]] = e[2]
+        muts = [e[1] for e in log if e[0] == "mutated" and e[1].startswith("RESULT")]
+        c_ok = isinstance(sets.get("cats"), Custom) and isinstance(sets["cats"].h, CatsResult) and sets["cats"].h.what == "RESULT cats" and not muts
+        s_ok = isinstance(sets.get("file_scheme"), Opaque) and sets["file_scheme"].tag == "RESULT scheme"
+        res.add(P + "cats_are_exactly_paths_to_cats_of_current_row_groups", PROVED if c_ok and s_ok else REFUTED,
+                None if c_ok and s_ok else {"self.cats is": str(getattr(getattr(sets.get("cats"), "h", None), "what", type(sets.get("cats")).__name__)),
+                                            "result changed afterwards by": muts, "self.file_scheme is the result": s_ok}, 0.0, "symbolic run",
+                "after the call self.file_scheme, self.cats ARE the pair paths_to_cats returned - the object itself, not filtered / merged with what the handle "
+                "held before (ARBITRARY prior self.cats): a partition value that appears with a new row group is a category of the handle")
     return res, len(outs)
 
 
@@ -1110,6 +1123,38 @@ def run_read_partitions_executed():
     return res, n
 
 
+def run_paths_to_cats_executed():
+    """bounded backing of the symbolic paths_to_cats families: the function of the CURRENT tree on hive paths spelled by the oracle"""
+    from runtime.harness import import_fastparquet
+    import_fastparquet()
+    from fastparquet import api
+    res = Results()
+    n = 0
+    for shape, keys in KEY_SHAPES.items():
+        bad = None
+        for k in keys:
+            for other in (None, "id", "z9"):
+                for vals in (("a", "b"), ("x y", "p+q", "née")):          # plain texts: no re-typing involved
+                    lv = (lambda v: f"{k}={v}") if other is None else (lambda v: f"{k}={v}/{other}=7")
+                    paths = [lv(v) + f"/part.{i}.parquet" for i, v in enumerate(vals)]
+                    n += 1
+                    try:
+                        sch, cats = api.paths_to_cats(paths, {})
+                        got = (sch, list(cats), {kk: sorted(map(str, vv)) for kk, vv in cats.items()})
+                    except Exception as ex:
+                        got = f"{type(ex).__name__}: {ex}"
+                    want_c = {k: sorted(vals)}
+                    if other:
+                        want_c[other] = ["7"]
+                    want = ("hive", [k] + ([other] if other else []), want_c)
+                    if got != want and bad is None:
+                        bad = {"paths": paths, "paths_to_cats returns": str(got), "levels spelled as": str(want)}
+        res.add(f"paths_to_cats.executed[key: {shape}]", REFUTED if bad else PROVED, bad, 0.0, "enumeration (executed)",
+                "api.paths_to_cats of the current tree on hive paths '<key>=<value>[/<key2>=7]/part.N.parquet': scheme 'hive', the keys are the column "
+                "names in directory order (ANY name without '/' and '='), one category per directory value")
+    return res, n
+
+
 def check_conventions(ctx, which):
     """`which`: subset of {'hive', 'part_id', 'read_partitions'} -> list of (name, model, detail, fid or None) refuted"""
     out = []
@@ -1128,7 +1173,9 @@ def check_conventions(ctx, which):
             st = res.status(name)
             e = next((x for x in res.d[name] if x[0] == st), res.d[name][0])
             fid = known(name) if (known and st == REFUTED) else None
-            if fid and ctx.is_known(fid):
+            if fid:             # the record of this property (same finding, one record per property it is selected for), else the C05 one
+                fid = next((x for x in (fid.replace("C05-", ctx.prop + "-", 1), fid) if ctx.is_known(x)), None)
+            if fid:
                 ctx.obligation(name, function, "refuted-known", e[3], 0.0, detail=e[4], model=e[1], sample=True)
                 ctx.known_finding(fid)
                 continue
@@ -1142,6 +1189,8 @@ def check_conventions(ctx, which):
         # keys outside [a-zA-Z_0-9] and the empty value: refuted on the unchanged tree = recorded finding (natively confirmed)
         family("hive_path", "util.ex_from_sep", lambda: run_hive_convention(u),
                known=lambda nm: FID_KEY_REGEX if (nm.startswith("hive_path.regex_and_split_agree[key: ") and "[key: word]" not in nm) or nm.endswith("[value: empty value]") else None)
+    if "paths_to_cats" in which:
+        family("paths_to_cats.executed", "api.paths_to_cats", run_paths_to_cats_executed)
     if "part_id" in which:
         family("part_id", "api.PART_ID", lambda: run_part_id(parse_module("fastparquet/api.py")[1]))
     if "read_partitions" in which:
